@@ -318,6 +318,9 @@ class IH5Record(IH5Group):
         # (also if just some patch containers of it are left)
         if truncate:
             cls.delete_files(record)
+        elif leftover := cls.find_files(record):
+            # also without a base container, these files are (the rest of) a record
+            raise FileExistsError(f"Containers of the record exist: {leftover}")
 
         # create new container
         ret = cls.__new__(cls)
